@@ -702,6 +702,8 @@ class C17(Check):
         try:
             if prog["kind"] == "fuzz":
                 return self.run_fuzz_input(ctx, prog)
+            if prog["kind"] == "kindcell":
+                return self.run_kindcell(ctx, prog)
             if prog["kind"] == "api":
                 return self.run_api(ctx, prog)
             if prog["kind"] == "store":
@@ -786,6 +788,98 @@ class C17(Check):
         ctx.case(prog, True, set())
 
     def extra(self, ctx, tier, shard, nshards):
+        """deterministic small-scope enumerations (sharded), then the coverage-guided leg"""
+        v = self.enumerate_small_scopes(ctx, tier, shard, nshards)
+        if v is not None:
+            return v
+        return self.fuzz_leg(ctx, tier, shard, nshards)
+
+    def enumerate_small_scopes(self, ctx, tier, shard, nshards):
+        """(a) every record of every object file of the golden token gets every other stored kind (kind confusion between what the attribute class
+        expects and what the store holds), then every attribute is read with exactly-sized buffers; (b) every mixture update(n1) -> single-part(n2) /
+        update(n1), update(n2), final of 10 symmetric mechanisms with buffers of exactly the announced size.  Both are finite and run completely."""
+        cells = []
+        fx, _ = fixture_plain()
+        objfiles = sorted(f for f in os.listdir(fx) if f.endswith(".object"))
+        for fi, f in enumerate(objfiles):
+            nrec = len(walk_records(open(os.path.join(fx, f), "rb").read()))
+            for k in range(nrec):
+                for kind in (1, 2, 3, 4, 5):
+                    cells.append({"kind": "kindcell", "file": f, "rec": k, "to": kind})
+        mechs = ["CKM_AES_ECB", "CKM_AES_CBC", "CKM_AES_CBC_PAD", "CKM_AES_CTR", "CKM_AES_GCM", "CKM_DES3_ECB", "CKM_DES3_CBC", "CKM_DES3_CBC_PAD"]
+        for m in mechs:
+            for d in ("enc", "dec"):
+                for n1 in (1, 8, 15, 17):
+                    for n2 in (0, 1, 7, 9, 15, 16, 17):
+                        cells.append({"kind": "api", "calls": [{"fn": "$lenmix", "mech": m, "dir": d, "s": {"$s": 0}, "steps": [["update", n1, "$exact"], ["single", n2, "$exact"]]}]})
+                        cells.append({"kind": "api", "calls": [{"fn": "$lenmix", "mech": m, "dir": d, "s": {"$s": 0},
+                                                                "steps": [["update", n1, "$exact"], ["update", n2, "$exact"], ["final", 0, "$exact"]]}]})
+        ctx.extra["enumerated_cells_total"] = len(cells) if shard == 0 else 0
+        for i, cell in enumerate(cells):
+            if i % nshards != shard:
+                continue
+            try:
+                self.run_program(ctx, cell)
+            except Violation as v:
+                v.program = cell
+                return v
+            except WorkerDied as d:
+                if d.how == "hang":
+                    continue
+                v = self.on_worker_death(ctx, cell, d)
+                v.program = cell
+                return v
+            ctx.label("enumerated_cells")
+        return None
+
+    def run_kindcell(self, ctx, prog):
+        """one record of one object file of the golden token stored with another kind; then every attribute of every object is read"""
+        man = ctx.shared.get("fixman")
+        if man is None:
+            man = ctx.shared["fixman"] = json.load(open(os.path.join(FIX, "manifest.json")))["tokens"]
+        fx, pin = fixture_plain()
+        sb = ctx.env.sandbox(backend="file")
+        try:
+            shutil.rmtree(sb.tokendir)
+            os.makedirs(sb.tokendir)
+            dst = os.path.join(sb.tokendir, os.path.basename(fx))
+            shutil.copytree(fx, dst)
+            path = os.path.join(dst, prog["file"])
+            b = bytearray(open(path, "rb").read())
+            recs = walk_records(bytes(b))
+            r0 = recs[prog["rec"] % len(recs)]
+            if int.from_bytes(b[r0[1]:r0[1] + 8], "big") == prog["to"]:
+                return
+            b[r0[1]:r0[1] + 8] = int(prog["to"]).to_bytes(8, "big")
+            open(path, "wb").write(bytes(b))
+            w = sb.worker()
+            try:
+                n = 0
+                if w.C_Initialize()["rv"] == 0:
+                    for sl in w.C_GetSlotList(present=True).get("slots", []):
+                        r = w.C_OpenSession(slot=sl, flags=RW)
+                        if r["rv"] != 0:
+                            continue
+                        w.C_Login(s=r["h"], user=K.CKU_USER, pin=hx(pin.encode()))
+                        c = w.census(s=r["h"], types=ALL_ATTRS)
+                        self.check_resp(prog, n, {"fn": "census"}, c)
+                        # and once more the caller's way: size query, then a buffer of exactly that size, all attributes in one call
+                        for h in sorted(int(x) for x in c.get("objects", {}))[:40]:
+                            q = w.C_GetAttributeValue(s=r["h"], o=h, attrs=[[t, None] for t in ALL_ATTRS if t not in TPL_TYPES])
+                            lens = [a.get("len", 0) for a in q.get("attrs", [])]
+                            ex = [[t, (ln if ln is not None and 0 <= ln <= 65536 else None)] for t, ln in zip([t for t in ALL_ATTRS if t not in TPL_TYPES], lens)]
+                            rr = w.C_GetAttributeValue(s=r["h"], o=h, attrs=ex)
+                            self.check_resp(prog, n, {"fn": "C_GetAttributeValue"}, rr)
+                            n += 1
+                        ctx.steps += n
+                    w.C_Finalize()
+                self.health(ctx, prog, w, False)
+            finally:
+                w.close()
+        finally:
+            sb.remove()
+
+    def fuzz_leg(self, ctx, tier, shard, nshards):
         """one libFuzzer process per shard (store on two thirds of the shards, conf on the rest), fresh corpus, pinned -seed"""
         secs = int(os.environ.get("C17_FUZZ_SECONDS", FUZZ_SECONDS.get(tier, 40)))
         if secs <= 0:
